@@ -177,12 +177,12 @@ example : updPath ['b'] (.str ['x']) [(['c'], .num ['4'])] exM [['l']]
              (['l'], .list [.map [(['b'], .num ['1']), (['c'], .num ['3'])],
                             .map [(['b'], .str ['x']), (['c'], .num ['4'])], .num ['5']])], 1) := by
   simp [exM, updPath, updValue, updMap, updAt, lookup, insert, hasSubKeys, subCond, hasPrefix,
-    setInMembers, mapCount, List.isPrefixOf]
+    setInMembers, mapCount, List.isPrefixOf, numEq]
 
 example : updPathLoci ['b'] [(['c'], .num ['4'])] exM [['l']]
     = [[.key ['l'], .idx 1, .key ['b']]] := by
   simp [exM, updPathLoci, updValueLoci, updMapLoci, updEndLoci, setInLoci, lookup, hasSubKeys,
-    subCond, hasPrefix, lociList, List.isPrefixOf]
+    subCond, hasPrefix, lociList, List.isPrefixOf, numEq]
 
 /-- `C10_query_agrees` instantiated: after the `*.b` update the query yields three copies -/
 example : walk none (updPath ['b'] (.str ['x']) [] exM [['*'], ['b']]).1 [['*'], ['b']]
